@@ -1,4 +1,7 @@
 import P9Model.Session.Dispatch
+import P9Model.Session.Closes
+import P9Model.Session.Refuse
+import P9Model.Session.BindOnSuccess
 /-!
 # C09 — Name confinement: no '.', '..', '/' or empty component reaches the backend
 
@@ -154,5 +157,26 @@ theorem splitSlash_go_no_slash (s cur : Bytes) (acc : List Bytes)
       · simp only [List.mem_cons, not_or]
         exact ⟨fun h => hx h.symm, hc⟩
       · exact ha
+
+/-- **A walk advances only through directories**: at any iteration of the component loop – the
+first, or after any number of successful steps – if the node reached so far was not reported as a
+directory by the backend, the walk ends with EINVAL and no backend call is made for the remaining
+components (dropping the walk reference may `Close` files, nothing else). -/
+theorem walk_stops_at_non_directory (name : SafeName) (rest : List SafeName) (walkRef : Nat)
+    (qids : List Nat) (v : Nat) (a : List Nat) (c : Ctx)
+    (h : isDir (c.st.refs.getD walkRef default).mode = false) :
+    ∃ c', walkLoop (name :: rest) walkRef qids v a c = .ok (.error EINVAL) c' ∧ OnlyCloses c c' := by
+  unfold walkLoop
+  simp only [bind, getRef_eval, h, Bool.not_false, ↓reduceIte]
+  have hp := decRefU_closes walkRef c
+  have hn := NoPanic.decRefU walkRef c
+  cases h1 : decRefU walkRef c with
+  | panic c1 => simp [h1] at hn
+  | ok u c1 =>
+    rw [h1] at hp
+    exact ⟨c1, rfl, hp⟩
+
+/-- the hypothesis is met by any reference whose File the backend reported as a regular file -/
+example : isDir ((({ st := { refs := [{ file := 1, mode := ModeReg, refs := 1, node := 0 }] }, tape := [] } : Ctx).st.refs.getD 0 default).mode) = false := by decide
 
 end P9.C09
